@@ -144,6 +144,56 @@ def run(ctx):
                 s2.violate({"fn": "long_low_rom_pointer", "base": hex(base), "pointers_in_order_on_one_converter": [hex(x) for x in ps[:i + 1]]}, exp, got,
                            "a converter that has already produced other pointers does not give the LoROM address of offset base+p")
                 break
+    # the pointer-table helpers of script.pointers built on the two formulas
+    import io as _io
+    import os as _os
+    import tempfile as _tf
+    from script.pointers import Pointer, Script, write_pointers_addresses_as_binary
+    tmpd = _tf.mkdtemp(prefix="a816verif-")
+    try:
+        for k in range(10 if tier == "quick" else 100):
+            base = rng.choice([0, 0x8000, 0x0F7F00, rng.randrange(0x3E0000)])
+            lens = [rng.choice([0, 1, 5, 0x100, 0x7FFF, 0x8000, rng.randrange(0x3000)]) for _ in range(rng.randrange(1, 8))]
+            ptrs = []
+            ids = list(range(len(lens)))
+            rng.shuffle(ids)
+            for i in ids:
+                p_ = Pointer(i)
+                p_.value = bytes(lens[i])
+                ptrs.append(p_)
+            out = _os.path.join(tmpd, "ptr.bin")
+            try:
+                with impl.quiet():
+                    write_pointers_addresses_as_binary(ptrs, long_low_rom_pointer(base), out)
+                data = open(out, "rb").read()
+            except Exception as e:  # noqa: BLE001
+                data = None
+            pos, offs = 0, []
+            for ln in lens:
+                offs.append(base + pos)
+                pos += ln
+            spec = drv.ask([f"spec.address 0 127 32768 {o}" for o in offs])
+            exp = b"".join(bytes([int(a) & 0xFF, (int(a) >> 8) & 0xFF, int(a) >> 16]) for a in spec)
+            s2.cases += 1
+            s2.count("pointer-table")
+            s2.nontrivial.add(("table", len(lens), base // 0x8000 % 2))
+            if offs[-1] < 0x400000 and data != exp:
+                s2.violate({"fn": "write_pointers_addresses_as_binary + long_low_rom_pointer", "base": hex(base), "text_lengths": lens}, exp.hex(), data.hex() if data is not None else "raised",
+                           "the pointer table does not hold the LoROM address of base + (sum of the preceding texts' lengths) for every text, in id order")
+            # reading a table of 16-bit pointers back with the base-relative formula
+            vals16 = [rng.randrange(0x10000) for _ in range(rng.randrange(1, 6))]
+            skip = rng.randrange(0, 5)
+            blob = bytes(skip) + b"".join(v.to_bytes(2, "little") for v in vals16)
+            b2 = rng.randrange(0, 0x3F0000)
+            with impl.quiet():
+                got = [p.get_address() for p in Script(_io.BytesIO(b"")).read_pointers(_io.BytesIO(blob), skip, len(vals16), 2, base_relative_16bits_pointer_formula(b2))]
+            s2.cases += 1
+            if got != [v + b2 for v in vals16]:
+                s2.violate({"fn": "Script.read_pointers + base_relative_16bits_pointer_formula", "base": b2, "values": vals16}, [v + b2 for v in vals16], got,
+                           "16-bit pointers are not decoded little-endian and offset by base")
+    finally:
+        import shutil as _sh
+        _sh.rmtree(tmpd, ignore_errors=True)
     vals = [(0x10000, 0x10, 0x20), (0, 0xFF, 0xFF), (0x100000, 0x00, 0x90), (0, 0, 0x80)]
     for _ in range(1500 if tier == "quick" else 20000):
         vals.append((rng.randrange(-0x1000, 0x400000), rng.randrange(256), rng.randrange(256)))
